@@ -1124,7 +1124,10 @@ func empiricalQuantile(p float64, x, weights []float64, sumWeights float64) floa
 			return x[i]
 		}
 	}
-	panic("impossible")
+	// The running sum can only fall short of p*sumWeights through rounding
+	// (sumWeights is accumulated in a different order): p is at the top of
+	// the distribution.
+	return x[len(x)-1]
 }
 
 func linInterpQuantile(p float64, x, weights []float64, sumWeights float64) float64 {
@@ -1147,7 +1150,8 @@ func linInterpQuantile(p float64, x, weights []float64, sumWeights float64) floa
 			return t*x[i-1] + (1-t)*x[i]
 		}
 	}
-	panic("impossible")
+	// See empiricalQuantile.
+	return x[len(x)-1]
 }
 
 // Skew computes the skewness of the sample data.
